@@ -74,7 +74,7 @@ PROPS["C13"] = {
 PROPS["C14"] = {
     "harnesses": [
         {"pkg": "app", "name": "VerifC14_Update", "quick": {"d": 0}, "thorough": {"d": 1}, "native": False,
-         "bounds": {"old project": "a (depends on k), b, k running", "new project": "a changed in one of 11 launch-relevant settings or unchanged; b kept or removed; c added or not; k untouched",
+         "bounds": {"old project": "a (depends on k), b, k running", "new project": "a changed in one of 11 launch-relevant settings or unchanged; b kept or removed; c added or not; k untouched; d disabled in both, changed or not; r (restart always) absent, or in its restart back-off when the update changes or removes it",
                     "probes": "both kinds configured"}},
         {"pkg": "types", "name": "VerifC14_Compare", "quick": {}, "thorough": {}, "reach": ["end", "equal", "different"],
          "bounds": {"strings": "arbitrary, len<=3", "ints": "full int64", "containers": "2 args, 1 env entry, 1 dependency, exec readiness + http liveness probe"}},
@@ -175,6 +175,8 @@ PROPS["C03"] = {
          "bounds": {"N": 2, "scenario": "launched daemon with a shutdown command that succeeds / fails / runs into its timeout, plus an ordinary process; project shutdown"}},
         {"pkg": "app", "name": "VerifC03_AfterScale", "quick": {"d": 1}, "thorough": {"d": 2}, "native": False,
          "bounds": {"initial replicas": "{1,2}", "scale to": "{1,2,3,10}", "shutdown": "default or ordered, after the scale request has settled"}},
+        {"pkg": "app", "name": "VerifC03_ManualStart", "quick": {"d": 1}, "thorough": {"d": 2}, "replay_repeat": 6,
+         "bounds": {"N": 2, "scenario": "a disabled process (with or without a dependency on the running one) started through the API, then a default or ordered project shutdown"}},
         {"pkg": "app", "name": "VerifC03_AlreadyStopping", "quick": {"d": 1}, "thorough": {"d": 2}, "replay_repeat": 6,
          "bounds": {"N": 2, "scenario": "StopProcess on a slow-dying process, then ShutDownProject (ordered or not) while it is still Terminating"}},
         {"pkg": "app", "name": "VerifC03_Project", "quick": {"d": 1}, "thorough": {"d": 2}, "replay_repeat": 8, "reach": ["end", "run.returned", "shutdown.returned"],
@@ -190,6 +192,8 @@ PROPS["C05"] = {
         {"pkg": "app", "name": "VerifC05_Chain", "quick": {"d": 1}, "thorough": {"d": 2}, "replay_repeat": 8,
          "bounds": {"chain": "a <- b <- c", "conditions": "completed_successfully/healthy/log_ready per edge", "failure of a": "non-zero exit / start error / bad working dir / stopped by user before ready",
                     "exit_on_skipped on c": "both"}},
+        {"pkg": "app", "name": "VerifC05_TwoDeps", "quick": {"d": 0}, "thorough": {"d": 1}, "replay_repeat": 12,
+         "bounds": {"graph": "mid depends on ghost (disabled, never scheduled) and on bad (fails completed_successfully / log_ready); leaf depends on mid", "map order": "every order of mid's depends_on"}},
     ],
     "stubs": ["Commander: vCmd", "go-health scheduler: harness-driven (no check is ever delivered in this harness)", "os.Stat of the bad working dir: not found"],
     "assumptions": ["depth 3 (deeper chains by the same argument per edge)"],
@@ -252,6 +256,8 @@ PROPS["C08"] = {
          "bounds": {"requests": "every sequence of 2 from {start, stop, restart, unknown-name}", "policy": "no/always", "stop latency": "immediate or only when nothing else can happen (choice per instance)"}},
         {"pkg": "app", "name": "VerifC08_Concurrent", "quick": {"d": 1}, "thorough": {"d": 2}, "replay_repeat": 6,
          "bounds": {"requests": "two concurrent clients, one request each from {start, stop, restart}", "policy": "no/always"}},
+        {"pkg": "app", "name": "VerifC08_BulkStop", "quick": {"d": 0}, "thorough": {"d": 1}, "replay_repeat": 4,
+         "bounds": {"request": "StopProcesses with every ordered selection of 2-3 names from {a (already stopped), b, c (running), ghost (unknown)}"}},
         {"pkg": "app", "name": "VerifC08_History3", "thorough": {"d": 0}, "replay_repeat": 6,
          "bounds": {"requests": "every sequence of 3", "policy": "no/always"}},
     ],
